@@ -30,6 +30,7 @@ A model is a record of references.  The aliasing edges, as the code creates them
 | `sample` | per extra bootstrap: `deepcopy(self)`, `gridsearch` on the copy, `deepcopy(self)`, `lam = …`, `fit`; the copies are dropped |
 | `copy.deepcopy(gam)`, pickle round trip | new objects throughout |
 | `set_params(lam=…)`, `gam.lam = …`, `spline_order` | written **through** `self.terms` into the term objects |
+| `gam.terms = e`, `set_params(terms=e)` | `GAM.__setattr__` deep-copies: new term objects with the expression's current values (un-compiled); `coef_`, `statistics_`, `logs_`, the distribution are kept (`assignTerms`) |
 
 What is abstract: data sets are ids; the data-derived quantities `knots d feature categorical`
 (`gen_edge_knots`) and `ncat d feature` (`len(np.unique(..))`) are parameters (`Env`); the outcome of a fit is
@@ -233,7 +234,11 @@ structure QueryKey where
   distScale : Option FitIn
   deriving DecidableEq, Repr
 
-def ModelView.queryKey (v : ModelView) : Option QueryKey := v.predKey.map fun p => ⟨p, v.dist.known, v.dist.scale⟩
+/-- `none`: the query raises — the model is not fitted, or (between `gam.terms = e` and the next fit) its term objects
+are not compiled; what exactly the code raises (or returns, when all assigned terms carry user knots) in the second
+case is accidental and not modelled further -/
+def ModelView.queryKey (v : ModelView) : Option QueryKey :=
+  if v.terms.all (·.knots.isSome) then v.predKey.map fun p => ⟨p, v.dist.known, v.dist.scale⟩ else none
 
 def ModelView.nCoefs (v : ModelView) : Nat := (v.terms.map TermObj.nCoefs).sum
 
@@ -304,6 +309,17 @@ def setOrder (w : World) (i : Nat) (c : Nat) : World :=
   setTerms w i (fun _ t => match t.set.kind with
     | .spline => { t with set := { t.set with order := c } }
     | _ => t)
+
+/-- `gam.terms = e` / `gam.set_params(terms=e)`: `GAM.__setattr__` stores a deep copy — new term objects holding what
+the expression's term objects hold at that moment; nothing else changes (a fitted model keeps `coef_`, `statistics_`,
+`logs_` and its distribution, and its queries read the new, un-compiled term objects until the next fit) -/
+def assignTerms (w : World) (i e : Nat) : World :=
+  match w.models[i]?, w.exprs[e]? with
+  | some m, some ex =>
+    let cells := ex.map w.term
+    { w with terms := w.terms ++ cells,
+             models := w.models.set i { m with terms := freshIds w.terms.length cells.length } }
+  | _, _ => w
 
 /-- `set_params(tol=…, max_iter=…, …)`: model-level attributes -/
 def setModel (w : World) (i : Nat) (c : Nat) : World :=
@@ -416,6 +432,7 @@ inductive Op
   | setOrder (i : Nat) (c : Nat)
   | setModel (i : Nat) (c : Nat)
   | copy (i : Nat)
+  | assignTerms (i e : Nat)
   deriving Repr
 
 inductive Out
@@ -432,7 +449,7 @@ inductive Out
 def Op.target : Op → Option Nat
   | .mkExpr _ | .joinExpr _ _ | .construct .. => none
   | .fit i _ _ | .query _ i _ | .sample i _ _ | .gridsearch i _ _ _ _ | .setLam i _ | .setOrder i _
-  | .setModel i _ => some i
+  | .setModel i _ | .assignTerms i _ => some i
   | .copy _ => none
 
 /-- calls that only read -/
@@ -465,6 +482,8 @@ def step (env : Env) (w : World) : Op → World × Out
   | .setOrder i c => if i < w.models.length then (setOrder w i c, .unit) else (w, .error)
   | .setModel i c => if i < w.models.length then (setModel w i c, .unit) else (w, .error)
   | .copy i => if i < w.models.length then (copyModel w i, .created w.models.length) else (w, .error)
+  | .assignTerms i e =>
+    if i < w.models.length ∧ e < w.exprs.length then (assignTerms w i e, .unit) else (w, .error)
 
 /-- run a history -/
 def run (env : Env) (w : World) (h : List Op) : World := h.foldl (fun w o => (step env w o).1) w
